@@ -21,7 +21,7 @@ BUDGET = {
 
 
 def strategy(tier):
-    return hist_case(nmax=30 if tier == "quick" else 80, maxlen=8 if tier == "quick" else 20)
+    return hist_case(nmax=30 if tier == "quick" else 80, maxlen=8 if tier == "quick" else 20, user_ws=True)
 
 
 def nontrivial(case, v):
